@@ -14,7 +14,8 @@ import (
 // semaphore `Acquire(ctx, n)` in the listed functions, with the classes of its wake-up cases:
 //
 //	reqctx   – the request's / caller's context        (req.Context().Done(), ctx.Done(), …)
-//	connctx  – the connection's context or done signal (cc.Context().Done(), h.cc.Context().Done(), s.ctx.Done() for the server)
+//	connctx  – the connection's context (cc.Context().Done(), h.cc.Context().Done(), s.ctx.Done() for the server)
+//	conndone – the connection's done signal cc.Done(): completion of the shutdown, NOT accepted as a wake-up for Close()
 //	result   – a channel that delivers the awaited result
 //	default  – non-blocking select
 //
@@ -51,6 +52,11 @@ func c09ClassifyWake(txt string, params map[string]bool) string {
 	switch {
 	case strings.HasSuffix(t, ".Context().Done()") || strings.HasSuffix(t, ".Done()"):
 		base := strings.TrimSuffix(strings.TrimSuffix(t, ".Done()"), ".Context()")
+		if !strings.HasSuffix(t, ".Context().Done()") && (base == "cc" || strings.HasSuffix(base, ".cc") || base == "r.cc" || base == "cc.session") {
+			// cc.Done() is the END of the connection's shutdown (the session's Run loop has returned), not the close
+			// signal: it may come arbitrarily later than Close() (a reader that is still blocked in its read)
+			return "conndone"
+		}
 		switch {
 		case base == "cc" || strings.HasSuffix(base, ".cc") || base == "s.ctx" || base == "r.cc" || base == "cc.session":
 			return "connctx"
